@@ -15,7 +15,7 @@ RULE = ("one evaluation = one (stack shape, construction route, operation): shap
 ASSUMPTIONS = ["siblings of an emitting/consuming sublayer inside the same group are unspecified by the statement: only 'at most once' is required of them",
                "for a deferred event only layers beyond the first receiving item are required to wait for the loop",
                "the deferred queue is shared by all stacks of a process; it is drained between cases"]
-REQUIRED = ["earlier_stacks_rechecked", "earlier_stacks_intact", "shape_ops", "event_ops", "detached_ops", "helper_combos", "default_stack_combos", "interface_lookups", "groups_seen"]
+REQUIRED = ["passthrough_compositions", "passthrough_ok", "earlier_stacks_rechecked", "earlier_stacks_intact", "shape_ops", "event_ops", "detached_ops", "helper_combos", "default_stack_combos", "interface_lookups", "groups_seen"]
 EXHAUSTIVE = None
 
 LOG = []
@@ -526,6 +526,114 @@ def helpers(acc):
         acc.violation("helper-raises:pushDefaultLayers:%s" % type(e).__name__, "pushDefaultLayers().push().build() raised %r" % (e,), {"helper": "pushDefaultLayers"})
 
 
+_pcls_cache = {}
+
+
+def prec_class(name):
+    """Recording layer for list-valued data (the library's logger formats what it forwards with %s: no tuples)."""
+    from yowsup.layers import YowLayer
+    if name in _pcls_cache:
+        return _pcls_cache[name]
+
+    class PRec(YowLayer):
+        NAME = name
+
+        def __init__(self):
+            super(PRec, self).__init__()
+            INSTANCES[self.NAME] = self
+
+        def send(self, data):
+            LOG.append((self.NAME, "send", tuple(data)))
+            self.toLower(list(data) + [self.NAME])
+
+        def receive(self, data):
+            LOG.append((self.NAME, "recv", tuple(data)))
+            self.toUpper(list(data) + [self.NAME])
+
+        def __str__(self):
+            return "PRec(%s)" % self.NAME
+    PRec.__name__ = "PRec_" + name
+    _pcls_cache[name] = PRec
+    return PRec
+
+
+def library_passthrough_compositions(acc, r, n):
+    """The library's own pass-through layer (YowLoggerLayer) as a plain layer and as a member of parallel groups of every size and
+    position, explicit and implicit, built as class or via builder: data offered to every member, each member's output
+    continuing to the group's neighbour (the logger forwards unchanged, the recording members append their name)."""
+    from yowsup.stacks import YowStack, YowStackBuilder
+    from yowsup.layers import YowParallelLayer
+    from yowsup.layers.logger import YowLoggerLayer
+    for k in range(n):
+        size = r.randint(1, 4)
+        xpos = r.randrange(size)
+        members = ["X" if j == xpos else "M%d" % j for j in range(size)]
+        plain = r.random() < 0.2
+        shape = ["B"] + (["X"] if plain else [members]) + (["U"] if r.random() < 0.5 else []) + ["T"]
+        route = r.choice(["explicit", "implicit", "builder"])
+        w = {"helper": "library-passthrough", "shape": shape, "route": route}
+        INSTANCES.clear()
+        del LOG[:]
+
+        def obj(it):
+            if isinstance(it, list):
+                classes = tuple(YowLoggerLayer if m == "X" else prec_class(m) for m in it)
+                return classes if route == "implicit" else YowParallelLayer(classes)
+            return YowLoggerLayer if it == "X" else prec_class(it)
+        try:
+            if route == "builder":
+                b = YowStackBuilder()
+                for it in shape:
+                    b.push(obj(it))
+                st = b.build()
+            elif route == "implicit":
+                st = YowStack(tuple(obj(it) for it in shape)[::-1], reversed=True)
+            else:
+                st = YowStack(tuple(obj(it) for it in shape), reversed=False)
+        except Exception as e:  # noqa
+            acc.violation("passthrough-build-raises:%s" % type(e).__name__, "building %r raised %r" % (shape, e), w)
+            continue
+        acc.count("passthrough_compositions")
+        acc.case(["pt", shape, route], nontrivial=not plain)
+        for direction in ("send", "recv"):
+            del LOG[:]
+            order = list(range(len(shape)))
+            if direction == "send":
+                order = order[::-1]
+            want = []
+
+            def go(i, path):
+                if i >= len(order):
+                    return
+                it = shape[order[i]]
+                for m in (it if isinstance(it, list) else [it]):
+                    if m == "X":
+                        go(i + 1, path)
+                    else:
+                        want.append((m, "send" if direction == "send" else "recv", path))
+                        go(i + 1, path + (m,))
+            # data enters at the outermost recording layer
+            first = shape[order[0]]
+            try:
+                if direction == "send":
+                    INSTANCES["T"].send(["D"])
+                else:
+                    INSTANCES["B"].receive(["D"])
+            except Exception as e:  # noqa
+                acc.violation("passthrough-raises:%s:%s" % (direction, type(e).__name__), "%s through %r raised %r" % (direction, shape, e), w)
+                break
+            go(0, ("D",))
+            got = sorted((a, b_, c) for a, b_, c in LOG if b_ in ("send", "recv"))
+            if got != sorted(want):
+                miss = [x for x in want if x not in got][:3]
+                extra = [x for x in got if x not in want][:3]
+                acc.violation("passthrough-data:%s:%s" % (direction, "plain" if plain else "group"), "with the library's logger layer %s, data sent %s does not reach every layer once: missing %s, unexpected %s"
+                              % ("as a plain layer" if plain else "inside a parallel group", direction, miss, extra), dict(w, direction=direction))
+                break
+        else:
+            acc.count("passthrough_ok")
+
+
 def shards(tier, seed, nworkers):
     q = tier == "quick"
     specs = [{"kind": "helpers"}]
@@ -545,6 +653,7 @@ def run(spec, acc):
     seed = spec["seed"]
     if spec["kind"] == "helpers":
         helpers(acc)
+        library_passthrough_compositions(acc, gen.rng(seed, ID, "passthrough"), 400)
         acc.sample({"helpers": "getProtocolLayers/getDefaultLayers x 16 flag combos, getDefaultStack x 32 x {no layer, layer}, positional args, pushDefaultLayers"})
         return
     if spec["kind"] == "exhaustive":
